@@ -354,6 +354,63 @@ def two_ike_sas_one_connection(ctx, res, seed):
                      'request that was sent (the SA payload carries the other request\'s SPI)', replay)
 
 
+def dead_peer_with_noise(ctx, res, seed, grain):
+    """the peer is gone, but datagrams that merely carry the IKE_SA's SPIs keep arriving (a replayed IKE_SA_INIT response, forged
+    cleartext of any exchange type): nothing that is not authenticated is a sign of life, so the liveness probe still starts
+    when its deadline comes, is retransmitted within the budget and the IKE_SA and its kernel SAs are removed in bounded time"""
+    dpd = 20
+    with CP.History(seed, trace=False, dpd=dpd, ike_lifetime=5000) as h:
+        h.oracles = list(ORACLES)
+        w = h.w
+        if not h.establish('A'):
+            return
+        sa = next(iter(w.A.sas()), None)
+        if sa is None:
+            return
+        init_res = next((d.data for d in w.sent if d.sender == 'B' and hdr(d.data) is not None and int(hdr(d.data).exchange_type) == 34
+                         and hdr(d.data).is_response), None)
+        w.net.clear()
+        t0 = w.now
+        noise = []
+        if init_res:
+            noise.append(bytes(init_res))
+        for exch in (34, 35, 36, 37):
+            for resp in (False, True):
+                m = M.Message(spi_i=sa.spi_i, spi_r=sa.spi_r, major=2, minor=0, exchange_type=exch, is_response=resp,
+                              can_use_higher_version=False, is_initiator=not sa.is_initiator, message_id=ctx.rng.choice([0, 1, 2, sa.my_msg_id, sa.peer_msg_id]),
+                              payloads=[M.PayloadNONCE()], encrypted_payloads=[], crypto=None)
+                noise.append(bytes(m.to_bytes()))
+        replay = {'seed': seed, 'scenario': 'dead peer, unauthenticated datagrams with the SPIs every 5 s', 'grain': grain, 'dpd': dpd}
+        res.evaluations += 1
+        res.nontrivial.add(('dead-peer-noise', grain, seed))
+        res.count('dead-peer-noise')
+        probe_at = None
+        bound = dpd + 2 + sum((k + 1) * 2 for k in range(1, 5)) + 2 + 3 * grain + 5
+        k = 0
+        while w.now - t0 < bound + 20:
+            h.op('tick', grain)
+            for d in list(w.net):
+                if d.sender == 'A' and probe_at is None and hdr(d.data) is not None and int(hdr(d.data).exchange_type) == 37:
+                    probe_at = w.now - t0
+            w.net.clear()                                   # the peer is dead: nothing A sends arrives
+            if int((w.now - t0) / 5) > k:
+                k = int((w.now - t0) / 5)
+                h.op('inject', 'A', noise[k % len(noise)], w.ip_b)
+                w.net.clear()
+            if sa not in w.A.sas():
+                break
+        if probe_at is None or probe_at > dpd + grain + 1.5:
+            res.fail('dpd-postponed-by-unauthenticated-datagrams', 'with unauthenticated datagrams for the IKE_SA arriving every 5 s the liveness '
+                     'probe %s (dead-peer detection interval %d s)' % ('was never sent' if probe_at is None else 'started only after %.1f s' % probe_at, dpd), replay)
+        elif sa in w.A.sas():
+            res.fail('dead-peer-not-detected', 'the dead peer\'s IKE_SA is still held %.0f s after the last authentic message (bound %.0f s)'
+                     % (w.now - t0, bound), replay)
+        elif w.A.kernel.sad:
+            res.fail('dead-peer-sas-left', 'the IKE_SA was removed but its kernel SAs remain', replay)
+        for k2, what, at in h.findings[:2]:
+            res.fail(k2, what, replay)
+
+
 def run(ctx):
     res = Result()
     res.rule = ('request kinds %s x subsets of delivered transmissions x tick grains (0.25, 1, 3, 7 s); peer crash after every '
@@ -379,6 +436,8 @@ def run(ctx):
         busy_peer(ctx, res, ctx.rng.randrange(1 << 30), g)
     for _ in range(2):
         two_ike_sas_one_connection(ctx, res, ctx.rng.randrange(1 << 30))
+    for g in grains:
+        dead_peer_with_noise(ctx, res, ctx.rng.randrange(1 << 30), g)
     return res
 
 
